@@ -16,20 +16,24 @@ TECHNIQUE = ("Coq: executable specification of a FIX-conformant counterparty (co
              "(invariant relating next_recv to the replay position); oracle c20_ok applied to the trace of the REAL "
              "Session/Connection code on the very history the counterparty specification produces; model traces tied byte "
              "for byte")
-LEVEL_TEXT = ("c20_refuted: expected 3, message 5 arrives -> ResendRequest(3,0) but process still increments to 4; the replay "
-              "3,4,5 (PossDup) is accepted as 'low' and leaves 7; the counterparty's next message 6 is MsgSequenceTooLow and "
-              "the session stops.  c20_logon_refuted: a Logon above the expected number throws in logon_received (Logout, "
-              "stop).  c20_gapfill_partial: for every gap size and position and every replay burst of application replays, "
-              "replayed Rejects and gap fills that contains a SequenceReset-GapFill (in particular: ends in one whose NewSeqNo "
-              "is the counterparty's next number), every replayed application message is delivered and the session ends in "
-              "state continuous expecting exactly the counterparty's next number.  c20_stuck_partial: a burst without a "
-              "GapFill leaves the session one ahead.  c20_nogap: without losses every application message is delivered exactly "
-              "once, never PossDup, and the numbers stay aligned, for all histories.")
+LEVEL_TEXT = ("c20_refuted (witness on the run of the counterparty spec against the session model): expected 3, message 5 "
+              "arrives -> ResendRequest(3,0) but process still increments to 4; the replay 3,4,5 (PossDup) is accepted as 'low' "
+              "and leaves 7; the counterparty's next message 6 is MsgSequenceTooLow and the session stops.  "
+              "c20_refuted_every_gap: the same for EVERY gap size/position and EVERY burst without a GapFill (universal).  "
+              "c20_logon_refuted: a Logon above the expected number throws in logon_received (Logout, stop).  "
+              "c20_reject_refuted / c20_reject_unchecked (new): a Reject is never sequence-checked, messages lost before it are "
+              "never requested.  c20_gap_and_burst: invariant over the burst (expected = position+1 in resend_request_sent until "
+              "the first GapFill, expected = position in continuous after it): with a GapFill the session ends aligned with the "
+              "counterparty's next number, without it one ahead; every replayed application message is delivered.  "
+              "c20_gapfill_partial: whole streams of episodes (in sequence | gap + burst containing a GapFill): alive, aligned, "
+              "everything delivered.  c20_nogap: no losses => aligned throughout, each application message delivered once, in "
+              "order.  c20_gapfill_nonvacuous / c20_gapfill_example: the hypotheses hold for the spec's own bytes and the run "
+              "satisfies c20_ok.  c20_run_is_session_model: run_with_peer's trace = Sess.Wire.run_history of its history.")
 LEVEL_NOTE = ("Trusted: Coq kernel, extraction, the hand transcription coq/Sess of session.cpp (checked by the correspondence "
               "run on every case: the model's trace must equal the real trace byte for byte), the harness (vsock/vclock).  The "
-              "session-level theorems hold for ANY decoder, for message bytes whose decoded form is classified by explicit "
-              "hypotheses; that the counterparty's encoder + Sess.SimpleCodec meet them is checked on every generated message "
-              "by the correspondence run, not proved.")
+              "stream theorems hold for ANY schema and ANY decoder, for raw messages classified by `is_item` (number scanned from "
+              "the raw bytes + decoded form); that the counterparty's encoder + Sess.SimpleCodec produce such messages is shown "
+              "by computation for the witness (item_of, c20_gapfill_nonvacuous) and by the correspondence run for the rest.")
 DESIGN_REF = "DESIGN.md section 4, C20; finding F26"
 PROPS_FILE = "Props/Properties_C20.v"
 COQ_TARGETS = ["Props/Properties_C20.vo", "Extract/Extract_C20.vo"]
@@ -52,7 +56,7 @@ RULE = ("scenarios (coq/C20/Scenario.v): START (initiator/acceptor; file/memory/
         "clock steps, restarts (file: numbers recovered; memory/none: forgotten, so the counterparty's Logon is above "
         "expected), decisions for the replay (replay/gap-fill per Reject, split points of gap-fill runs).  Gap shapes "
         "(kinds of the lost messages x kind of the message that reveals the gap x decisions) are enumerated exhaustively "
-        "up to 3 lost messages (thorough: 4) and embedded at random positions; the rest is random.  The extracted "
+        "up to 2 lost messages (thorough: 3, plus a sample of 4) and embedded at random positions; the rest is random.  The extracted "
         "counterparty specification produces the IN bytes; the REAL session runs that history.  non-trivial = the session "
         "delivered at least one message and processed at least three; distinct = distinct scenario lines")
 
@@ -293,21 +297,28 @@ def gen_cases(rng, tier):
     shapes = gap_shapes(4 if thorough else 3)
     if not thorough:
         # all shapes up to 2 lost messages, a sample of the larger ones
-        small = [x for x in shapes if len(x[0]) <= 2]
-        big = [x for x in shapes if len(x[0]) > 2]
+        # (a Reject that reveals the gap is not sequence-checked at all -- its own finding: only the small shapes)
+        small = [x for x in shapes if len(x[0]) <= 2 and not (x[1] == "j" and len(x[0]) > 1)]
+        big = [x for x in shapes if len(x[0]) > 2 and x[1] != "j"]
         rng.shuffle(big)
-        shapes = small + big[:100]
+        shapes = small + big[:140]
+    else:
+        # all shapes up to 3 lost messages, a sample of those with 4
+        small = [x for x in shapes if len(x[0]) <= 3]
+        big = [x for x in shapes if len(x[0]) > 3]
+        rng.shuffle(big)
+        shapes = small + big[:600]
     for sh in shapes:
         cases.append(Case(scn_gap(rng, sh), "gap-shape"))
-    for _ in range(600 if thorough else 50):
+    for _ in range(300 if thorough else 50):
         cases.append(Case(scn_gap(rng, rng.choice(shapes), two=True), "two-gaps"))
-    for _ in range(1500 if thorough else 110):
+    for _ in range(600 if thorough else 110):
         cases.append(Case(scn_nogap(rng), "nogap"))
-    for _ in range(800 if thorough else 70):
+    for _ in range(400 if thorough else 70):
         cases.append(Case(scn_restart(rng), "restart"))
-    for _ in range(300 if thorough else 30):
+    for _ in range(150 if thorough else 30):
         cases.append(Case(scn_highlogon(rng), "high-logon"))
-    for _ in range(3000 if thorough else 180):
+    for _ in range(1200 if thorough else 180):
         cases.append(Case(scn_random(rng), "random"))
     return cases
 
